@@ -23,7 +23,7 @@ RULE = (
     "with another name in play, or with an internal temporary"
 )
 SPACE = {
-    "quick": "25 roles x 44 pool names (every single assignment) + 46 related role pairs x 42 ordered pairs of 7 substring/prefix/case-related names; 7 battery sections, only the sections that use a role are re-run",
+    "quick": "25 roles x 51 pool names (every single assignment) + 46 related role pairs x 72 ordered pairs of 9 substring/prefix/case-related names; 7 battery sections, only the sections that use a role are re-run",
     "thorough": "all role pairs within a section x the 42 ordered name pairs",
 }
 BOUNDS = {"quick": {}, "thorough": {}}
@@ -36,11 +36,14 @@ ASSUMPTIONS = [
 POOL = ["c", "e", "n", "t", "r", "l", "f", "i", "o", "u", "x", "g", "T", "xleft", "center1", "inner_x", "outerspace", "cent", "xx", "xc2",
         "XC", "Xc", "abcdefghijkl", "temp_unique", "temp_dim_target", "ydummy", "remapped", "dim_0", "TRANSFORMED_DIMENSION", "Xdummy",
         # spelled like a parameter of the xarray / numpy / dask functions the library calls, or like one of its own keyword arguments
-        "mode", "constant_values", "pad_width", "dim", "axis", "keep_attrs", "drop", "name", "dims", "kwargs", "boundary", "to", "depth", "func"]
+        "mode", "constant_values", "pad_width", "dim", "axis", "keep_attrs", "drop", "name", "dims", "kwargs", "boundary", "to", "depth", "func",
+        # words of the metadata conventions the parsers read
+        "padding", "high", "low", "both", "none", "node", "face"]
 # DataArray.squeeze() of the pinned xarray fails for a dimension called "drop" (its own keyword); the face-connected
 # padding path relies on it, so that one (name, section) combination is outside what xgcm can be held to
 XARRAY_CANNOT = {("drop", "faces")}
-PAIRPOOL = ["x", "xx", "xc", "xc2", "XC", "Xc", "cx"]
+# substring / prefix / case relations, and a name next to the same name with the affixes the library uses for temporaries
+PAIRPOOL = ["x", "xx", "xc", "xc2", "XC", "Xc", "cx", "_x", "xdummy"]
 
 CANON = dict(
     ax_X="X", ax_Y="Y", ax_Z="Z", dim_xc="xc", dim_xg="xg", dim_xo="xo", dim_yc="yc", dim_yg="yg", dim_zc="zc", dim_zo="zo",
